@@ -244,6 +244,16 @@ func runC16(ctx *Ctx) {
 		}}
 	}, func(c *Case) error { return checkC16(ctx, c) })
 
+	// AllowPartial is an option like the others: a source with unset required
+	// fields (proto2 types; also embedded in generated proto3 types) packs under it
+	ctx.CheckRapid("partialpack", per(4000, 30000), func(rt *rapid.T) *Case {
+		return &Case{Sub: "partialpack", Args: map[string]string{
+			"src": fmt.Sprint(rapid.IntRange(0, 4).Draw(rt, "src")),
+			"det": fmt.Sprint(rapid.Bool().Draw(rt, "det")),
+			"n":   fmt.Sprint(rapid.IntRange(0, 3).Draw(rt, "n")),
+		}}
+	}, func(c *Case) error { return checkC16(ctx, c) })
+
 	ctx.CheckRapid("failpack", per(5000, 40000), func(rt *rapid.T) *Case {
 		return &Case{Sub: "failpack", Args: map[string]string{
 			"src":  fmt.Sprint(rapid.IntRange(0, 4).Draw(rt, "src")),
@@ -344,8 +354,69 @@ func sizedMessage(src string, size int, fill byte) proto.Message {
 	return &wrapperspb.BytesValue{Value: body(1)}
 }
 
+// partialSource builds a message with an unset required field.
+func partialSource(i, n int) proto.Message {
+	parts := make([]*descriptorpb.UninterpretedOption_NamePart, n+1)
+	for k := range parts {
+		parts[k] = &descriptorpb.UninterpretedOption_NamePart{}
+		if k%2 == 1 {
+			parts[k].IsExtension = proto.Bool(true) // one of the two required fields set
+		}
+	}
+	switch i % 5 {
+	case 0:
+		return parts[0]
+	case 1:
+		return &descriptorpb.UninterpretedOption{Name: parts, IdentifierValue: proto.String("x")}
+	case 2:
+		d := dynamicpb.NewMessage(parts[0].ProtoReflect().Descriptor())
+		return d
+	case 3:
+		return &descriptorpb.FileOptions{UninterpretedOption: []*descriptorpb.UninterpretedOption{{Name: parts}}}
+	default:
+		// a generated proto3 type embedding the proto2 message, if the corpus has one
+		for _, t := range model.TypesNoBulk() {
+			if !model.HasRequired(t.Desc) {
+				continue
+			}
+			fds := t.Desc.Fields()
+			for k := 0; k < fds.Len(); k++ {
+				if fd := fds.Get(k); fd.Message() != nil && !fd.IsList() && !fd.IsMap() && fd.ContainingOneof() == nil && fd.Message().FullName() == "google.protobuf.UninterpretedOption.NamePart" {
+					d := t.NewD()
+					d.Mutable(fd)
+					return model.BuildP(t, d.ProtoReflect())
+				}
+			}
+		}
+		return parts[0]
+	}
+}
+
 func checkC16(ctx *Ctx, c *Case) error {
 	switch c.Sub {
+	case "partialpack":
+		src := partialSource(c.argInt("src"), c.argInt("n"))
+		if proto.CheckInitialized(src) == nil {
+			return fmt.Errorf("HARNESS: source %T is initialized", src)
+		}
+		opts := proto.MarshalOptions{AllowPartial: true, Deterministic: c.arg("det") == "true"}
+		want, err := opts.Marshal(src)
+		if err != nil {
+			return fmt.Errorf("HARNESS: reference marshal with AllowPartial failed: %v", err)
+		}
+		dst := &anypb.Any{TypeUrl: "sentinel", Value: []byte{1, 2, 3}}
+		if err := anyutil.MarshalFrom(dst, src, opts); err != nil {
+			return fmt.Errorf("anyutil.MarshalFrom with AllowPartial refused a %s with an unset required field, which opts.Marshal encodes: %v", src.ProtoReflect().Descriptor().FullName(), err)
+		}
+		if full := string(src.ProtoReflect().Descriptor().FullName()); dst.TypeUrl != "/"+full {
+			return fmt.Errorf("TypeUrl = %q, want %q", dst.TypeUrl, "/"+full)
+		}
+		if !bytes.Equal(dst.Value, want) {
+			return fmt.Errorf("Value differs from opts.Marshal(src) under AllowPartial: %x vs %x", dst.Value, want)
+		}
+		ctx.Label("partialpack: " + fmt.Sprintf("%T", src))
+		ctx.Nontrivial("partialpack", c.arg("src"), c.arg("det"), c.arg("n"))
+		return nil
 	case "sequence":
 		type packed struct {
 			a    *anypb.Any
